@@ -10,6 +10,7 @@ mod own;
 mod probe_checks;
 mod probes;
 mod scen;
+mod store_pin;
 mod treasury_grid;
 mod xcheck;
 
@@ -27,6 +28,9 @@ fn main() {
         exit(2);
     }
     let prop = args[1].clone();
+    if prop == "--write-store-baseline" {
+        exit(store_pin::write_baseline());
+    }
     let mut tier = std::env::var("VERIF_TIER").unwrap_or_else(|_| "quick".into());
     let mut replay: Option<String> = None;
     let mut i = 2;
